@@ -5,10 +5,11 @@
      R k | r k | d k      destroy object k (host delete | script remove | script delete)
      Q t | Z t | I t i    the value | .size | [i]
      C t T n | C t R | C t M | C t K j     command: targetname n | remove | mark | kill j
-     F t                  t.tag = <fresh>
+     F t [G] | F t T n | F t U j | F t Z j     field store: tag = <fresh> | targetname = n | fuse = j | zap = j
      K j n                level.c<j> = $n
    prints per op  m <obs>  (model) then  s <obs>  (specification):
-     <val> w=<warnings|-> log=<ids|-> f=<flag> t=<a>/<b>/<c>/<d>/<"">/<never named>   |   undef f=<flag> *)
+     <val> w=<warnings|-> log=<ids|-> t=<a>/<b>/<c>/<d>/<"">/<never named>
+   (the receivers of a tag store are printed in ascending order: the harness finds them by looking) *)
 let parse_target (w : string) : target option =
   if String.length w < 2 then None
   else
@@ -31,7 +32,10 @@ let parse_op (l : string) : (op * bool) option =
   | ["C"; w; "R"] -> t w (fun t -> OCmd (t, CRemove))
   | ["C"; w; "M"] -> t w (fun t -> OCmd (t, CMark))
   | ["C"; w; "K"; j] -> t w (fun t -> OCmd (t, CKill (ni j)))
-  | ["F"; w] -> (match parse_target w with Some t -> Some (OField t, true) | None -> None)
+  | ["F"; w] | ["F"; w; "G"] -> (match parse_target w with Some t -> Some (OField (t, FTag), true) | None -> None)
+  | ["F"; w; "T"; n] -> t w (fun t -> OField (t, FName (ni n)))
+  | ["F"; w; "U"; j] -> t w (fun t -> OField (t, FFuse (ni j)))
+  | ["F"; w; "Z"; j] -> t w (fun t -> OField (t, FZap (ni j)))
   | ["K"; j; n] -> Some (OCapture (ni j, ni n), false)
   | _ -> None
 let nl (l : n list) : string = if l = [] then "" else ilist (List.map int_of_n l)
@@ -42,15 +46,13 @@ let val_str (v : oval) : string =
   | OGrp l -> "grp:" ^ nl l
   | OInt n -> Printf.sprintf "int:%d" (int_of_n n)
 let warn_str (w : warn) : string =
-  match w with WNoTarget -> "NoTarget" | WNull -> "Null" | WCast -> "Cast" | WRange -> "Range"
+  match w with WNoTarget -> "NoTarget" | WNull -> "Null" | WCast -> "Cast" | WRange -> "Range" | WFail -> "Fail"
 let obs_str (sorted : bool) (o : obs) : string =
-  if o.oundef then Printf.sprintf "undef f=%d" (int_of_n o.oflag)
-  else
     let lg = List.map int_of_n o.olog in
     let lg = if sorted then List.sort compare lg else lg in
-    Printf.sprintf "%s w=%s log=%s f=%d t=%s" (val_str o.oval_)
+    Printf.sprintf "%s w=%s log=%s t=%s" (val_str o.oval_)
       (if o.owarn = [] then "-" else String.concat "," (List.map warn_str o.owarn))
-      (if lg = [] then "-" else ilist lg) (int_of_n o.oflag)
+      (if lg = [] then "-" else ilist lg)
       (String.concat "/" (List.map nl o.odump))
 let () =
   let lines = read_lines stdin in
